@@ -5,6 +5,7 @@ package main
 import (
 	"encoding/json"
 	"fmt"
+	"golang.org/x/sys/unix"
 	"math"
 	"math/rand"
 	"os"
@@ -17,6 +18,9 @@ import (
 )
 
 func init() { register("C09", checkC09) }
+
+// c09BomSweep: the number of file offsets swept with a mark (PRNG independent cases).
+const c09BomSweep = 1100
 
 // c09Fields: every free-text field of a Spec. set returns false when the
 // string would make the Spec invalid for that field (then the case is skipped).
@@ -150,7 +154,7 @@ func checkC09(c *Ctx) {
 	c.Assume("equality identifies nil and empty containers (normalised JSON comparison)", "only valid UTF-8 strings are generated (the property quantifies over valid UTF-8)")
 	dir := filepath.Join(c.Scratch, "c09")
 	must(os.MkdirAll(dir, 0o755))
-	c.RunCases("gen", c.pick(5500, 150000), 0, func(cs *Case) {
+	c.RunCases("gen", c.pick(6600, 150000), 0, func(cs *Case) {
 		r := cs.R
 		s := c09Base(r)
 		var field, class, val string
@@ -178,7 +182,19 @@ func checkC09(c *Ctx) {
 			}
 			s.Devices = append(s.Devices, specs.Device{Name: "last", ContainerEdits: specs.ContainerEdits{Env: []string{"LAST=1"}}})
 			c.Count("large_specs", 1)
-		} else if k := idx - len(largeSizes); k < len(c09Fields)*c09CatalogueSize() {
+		} else if k := idx - len(largeSizes); k < c09BomSweep {
+			// a byte order mark (and other characters with a meaning at the start of a
+			// document or a line) at every offset of the file modulo the reader's block sizes
+			field, class = "device-env-value", "bom-offset"
+			ch, pad := "\ufeff", k
+			if k >= 600 {
+				ch, pad = []string{"\u2028", "\u0085", "\ufffe", "\u009f", "\ufeff\ufeff"}[k%5], (k-600)*5/4
+			}
+			val = strings.Repeat("p", pad) + ch
+			s.Devices = s.Devices[:1]
+			s.Devices[0].ContainerEdits.Env = []string{"A=" + val}
+			c.Count("marks_at_swept_offsets", 1)
+		} else if k := idx - len(largeSizes) - c09BomSweep; k < len(c09Fields)*c09CatalogueSize() {
 			// every catalogue string in every free-text field, whatever the seed
 			f := c09Fields[k%len(c09Fields)]
 			class, val = c09CatalogueEntry(k / len(c09Fields))
@@ -266,6 +282,13 @@ func checkC09(c *Ctx) {
 			cache, _ = cdi.NewCache(cdi.WithSpecDirs(sub), cdi.WithAutoRefresh(false))
 		}
 		want := exactJSON(s)
+		if chance(r, 15) {
+			// entries that are neither Spec files nor directories, sorted before the Spec
+			// files: a link to a directory (an atomically updated volume has "..data"), a FIFO
+			os.Symlink(dir, filepath.Join(sub, pickStr(r, "..data", "0link", "..2026_10_03")))
+			unix.Mkfifo(filepath.Join(sub, pickStr(r, "0fifo", ".fifo")), 0o600)
+			c.Count("directories_with_links_and_fifos_before_the_spec_files", 1)
+		}
 		loaded := map[string]string{}
 		leftovers := chance(r, 20)
 		if leftovers {
